@@ -99,7 +99,7 @@ def families(eng, tier, seed):
     if tier == "thorough":
         top = next(i for i, t in enumerate(reach) if t["path"][-1:] == ["Choice"]); mid, _ = restrict(reach, [top])
         q = lambda n: "::".join(next(t["path"] for t in mid if t["path"][-1:] == [n]))
-        fams.append(gen_twice("fork-mid-derives", mid, ["derive_all Db", "derive_all Da", "derive_rec %s => R1" % q("Choice"), "derive_rec %s => R2" % q("B1"), "attrtok_for %s => zz" % q("A1")], "fork"))
+        fams.append(gen_twice("fork-mid-derives", mid, ["derive_all Da", "derive_rec %s => R1" % q("B1"), "attrtok_for %s => zz" % q("A1"), "attrtok_for %s => aa" % q("A1")], "fork"))
     # dedup numbering under arbitrary order of the path-group map
     vs = strip_segment(C["versions"], ("v1", "v2"))
     fams.append(gen_twice("fork-dedup-versions", vs, ["derive_all D"], "fork", dedup=True))
@@ -112,6 +112,7 @@ def families(eng, tier, seed):
         if ips: dirs += ["derive_rec %s => Rr" % "::".join(ips[0]), "attrtok_rec %s => rr(1)" % "::".join(ips[0]), "derive_for %s => Ss" % "::".join(ips[-1]), "derive_for %s => Sa" % "::".join(ips[-1])]
         fams.append(gen_twice("reversed-%s" % n, r, dirs, "reversed", dedup=multi))
         if n == "versions": fams.append(gen_twice("reversed-versions-stripped", vs, dirs, "reversed", dedup=True))
+        if n == "versions_hdr": fams.append(gen_twice("reversed-versions-hdr-stripped", strip_segment(r, ("h1", "h2")), dirs, "reversed", dedup=True))
     # registration order: all permutations of commuting directives
     k = 4 if tier == "quick" else 5
     dirs = ["derive_all Db", "derive_all Da", "attrtok_all serde(b)", "derive_rec %s => R1" % p("B1"), "attrtok_for %s => zz" % p("Inner")][:k]
